@@ -443,6 +443,18 @@ fn segments(items: &[PItem]) -> (Vec<Vec<PUse>>, Vec<String>) {
     (segs, others)
 }
 
+/// `::a::b` as `from_ast` represents it from edition 2018 on: the first name is `::a`
+fn glue_root(t: &Tree) -> Tree {
+    match (t.0.first(), t.0.get(1)) {
+        (Some(Seg::Ident(r, None)), Some(Seg::Ident(n, a))) if r.is_empty() => {
+            let mut segs = vec![Seg::Ident(format!("::{}", n), a.clone())];
+            segs.extend(t.0[2..].iter().cloned());
+            Tree(segs)
+        }
+        _ => t.clone(),
+    }
+}
+
 fn item_of_puse(u: &PUse, e2015: bool) -> Item {
     Item {
         tree: canon_tree(&u.tree, e2015, true),
@@ -585,6 +597,16 @@ impl GTree {
             }
         }
         Tree(segs)
+    }
+    /// unique tags for the nested comments
+    fn retag(&mut self, next: &mut usize) {
+        if let Some((_, c)) = &mut self.comment {
+            *c = format!("n{}", *next);
+            *next += 1;
+        }
+        if let GEnd::List(l) = &mut self.end {
+            l.iter_mut().for_each(|e| e.retag(next));
+        }
     }
     fn has_comment(&self) -> bool {
         self.comment.is_some() || matches!(&self.end, GEnd::List(l) if l.iter().any(|e| e.has_comment()))
@@ -1385,6 +1407,356 @@ fn part_source(o: &mut Outcome, rng: &mut Rng, thorough: bool) {
     }
 }
 
+// ------------------------------------------------------------------ 3. the real formatter
+
+#[derive(Clone, Debug)]
+enum EKind {
+    Use(Decl),
+    /// an item that is not an import, or a `use` that is not reorderable (`#[macro_use]`, skipped)
+    Barrier(String),
+}
+
+#[derive(Clone, Debug)]
+struct EProg {
+    elems: Vec<(EKind, usize)>, // blank lines before
+    has_pre: bool,
+}
+
+impl EProg {
+    fn text(&self) -> String {
+        let mut s = String::new();
+        for (k, (e, blank)) in self.elems.iter().enumerate() {
+            if k > 0 {
+                for _ in 0..*blank {
+                    s.push('\n');
+                }
+            }
+            match e {
+                EKind::Use(d) => s.push_str(&d.text()),
+                EKind::Barrier(t) => s.push_str(t),
+            }
+            s.push('\n');
+        }
+        s
+    }
+    fn decls(&self) -> Vec<&Decl> {
+        self.elems.iter().filter_map(|(e, _)| if let EKind::Use(d) = e { Some(d) } else { None }).collect()
+    }
+}
+
+fn gen_barrier(rng: &mut Rng, tag: usize, _g: &GenOpts) -> String {
+    match rng.below(8) {
+        0 => format!("fn f{}() {{}}", tag),
+        1 => format!("struct S{};", tag),
+        2 => format!("const C{}: u8 = 0;", tag),
+        3 => format!("mod m{} {{}}", tag),
+        4 => format!("extern crate e{};", tag),
+        5 => format!("#[rustfmt::skip]\nuse {};", GTree::plain(&["a", &format!("skipped{}", tag)], None).text()),
+        6 => format!("#[macro_use]\nuse {};", gen_tree(rng, 0, &GenOpts { max_depth: 1, comments: false, odd: false, global: false }).text()),
+        _ => format!("type T{} = u8;", tag),
+    }
+}
+
+/// A file: one to three segments of `use` declarations (each made of blank-line groups) separated by
+/// other items; comments only where the code attaches them to a declaration (probes C10-cmt-*).
+fn gen_prog(rng: &mut Rng, g: &GenOpts, with_pre: bool) -> EProg {
+    let mut elems: Vec<(EKind, usize)> = vec![];
+    let nseg = rng.range(1, 3);
+    let mut tag = 0;
+    let mut has_pre = false;
+    for sgi in 0..nseg {
+        if sgi > 0 {
+            elems.push((EKind::Barrier(gen_barrier(rng, tag, g)), rng.below(2)));
+            tag += 1;
+        }
+        let big = rng.chance(1, 6);
+        let total = rng.range(1, if big { 9 } else { 5 });
+        let run = gen_run(rng, total, g);
+        let mut first_of_segment = true;
+        let mut first_of_group = true;
+        for d in run {
+            let blank = if first_of_segment { if sgi == 0 { 0 } else { rng.below(2) } } else if rng.chance(1, 6) { 1 } else { 0 };
+            if blank > 0 {
+                first_of_group = true;
+            }
+            let mut d = d;
+            if g.comments && with_pre && !first_of_segment && rng.chance(1, 8) {
+                d.pre = Some(format!("p{}", tag));
+                has_pre = true;
+            }
+            let _ = first_of_group;
+            first_of_group = false;
+            first_of_segment = false;
+            tag += 1;
+            elems.push((EKind::Use(d), blank));
+        }
+    }
+    // trailing comments: only when the next line starts another declaration of the same group
+    if g.comments {
+        for k in 0..elems.len().saturating_sub(1) {
+            let next_ok = matches!(&elems[k + 1], (EKind::Use(n), 0) if n.pre.is_none());
+            if let (EKind::Use(d), _) = &mut elems[k] {
+                if next_ok && rng.chance(1, 7) {
+                    d.trail = Some(format!("t{}", k));
+                }
+            }
+        }
+    }
+    let mut next = 0;
+    for (e, _) in elems.iter_mut() {
+        if let EKind::Use(d) = e {
+            d.tree.retag(&mut next);
+        }
+    }
+    EProg { elems, has_pre }
+}
+
+struct Analysed {
+    segs: Vec<Vec<PUse>>,
+    others: Vec<String>,
+}
+
+fn analyse(src: &str) -> Result<Analysed, String> {
+    let items = parse_file(src)?;
+    let (segs, others) = segments(&items);
+    Ok(Analysed { segs, others })
+}
+
+/// comment texts -> the tag the generator wrote (`p3`, `t1`, `n12`)
+fn tags(u: &PUse) -> Vec<String> {
+    u.comments.iter().map(|c| c.trim_start_matches("//").trim_start_matches("/*").trim_end_matches("*/").trim().to_string()).collect()
+}
+
+fn part_e2e(o: &mut Outcome, rng: &mut Rng, thorough: bool) {
+    let nprog = if thorough { 2400 } else { 130 };
+    let gopts = GenOpts { max_depth: 4, comments: true, odd: true, global: true };
+    let mut progs: Vec<(EProg, String, Analysed)> = vec![];
+    for k in 0..nprog {
+        let p = gen_prog(rng, &gopts, k % 2 == 0);
+        let src = p.text();
+        // the harness parser reads the input as the generator wrote it
+        o.direct_evals += 1;
+        let a = match analyse(&src) {
+            Ok(a) => a,
+            Err(e) => {
+                o.direct_failures.push(json!({"sig": "c10:harness-parser", "what": format!("the harness parser rejects a generated file: {}", e), "src": src}));
+                continue;
+            }
+        };
+        let parsed: Vec<&PUse> = a.segs.iter().flatten().collect();
+        let decls = p.decls();
+        let same = parsed.len() == decls.len()
+            && parsed.iter().zip(decls.iter()).all(|(u, d)| {
+                let mut want_c = vec![];
+                d.tree.comments(&mut want_c);
+                want_c.extend(d.pre.clone());
+                want_c.extend(d.trail.clone());
+                let mut got_c = tags(u);
+                got_c.sort();
+                want_c.sort();
+                u.tree == d.tree.surface() && u.vis == d.vis_key() && u.attrs.len() == d.attrs.len() && got_c == want_c
+            });
+        if !same {
+            o.direct_failures.push(json!({"sig": "c10:harness-parser", "what": "the harness parser reads other declarations (tree, visibility, attributes, attached comments) than the generator wrote", "src": src, "parsed": format!("{:?}", parsed)}));
+            continue;
+        }
+        for d in &decls {
+            count_decl(o, "e2e", d);
+        }
+        o.count(&format!("e2e:segments={}", a.segs.iter().filter(|s| !s.is_empty()).count()));
+        for sgm in &a.segs {
+            if !sgm.is_empty() {
+                o.count(&format!("e2e:declarations per segment={}", sgm.len().min(9)));
+            }
+        }
+        progs.push((p, src, a));
+    }
+    o.count_n("e2e:programs", progs.len() as u64);
+    // hypotheses of run_leaves_partial, judged by the model: every item well-formed, and the
+    // normalised items of every segment safe for the granularity
+    let mut reqs: Vec<String> = vec![];
+    for (_, _, a) in &progs {
+        for e2015 in [true, false] {
+            for u in a.segs.iter().flatten() {
+                // the hypotheses are about the items as the code represents them
+                let mut it = item_of_puse(u, e2015);
+                it.tree = glue_root(&it.tree);
+                let it = litem(&it);
+                reqs.push(format!("imp.wf {}", it));
+                reqs.push(format!("imp.normalize 2021 {}", it));
+            }
+        }
+    }
+    let ans = run_model(&reqs, crate::util::jobs());
+    let mut k = 0;
+    let mut reqs2: Vec<String> = vec![];
+    let mut wf: Vec<[bool; 2]> = vec![];
+    for (_, _, a) in &progs {
+        let mut ok = [true, true];
+        for (ei, _) in [true, false].iter().enumerate() {
+            for sgm in &a.segs {
+                let mut norm = vec![];
+                for _ in sgm {
+                    if ans[k] != "1" {
+                        ok[ei] = false;
+                    }
+                    norm.push(ans[k + 1].clone());
+                    k += 2;
+                }
+                let items = if norm.is_empty() { "_".to_string() } else { norm.join("|") };
+                for g in 0..5 {
+                    reqs2.push(format!("imp.safe {} {}", GNAMES[g], items));
+                }
+            }
+        }
+        wf.push(ok);
+    }
+    let ans2 = run_model(&reqs2, crate::util::jobs());
+    let mut k2 = 0;
+    // safe[prog][edition class][granularity]
+    let mut safe: Vec<[[bool; 5]; 2]> = vec![];
+    for (pi, (_, _, a)) in progs.iter().enumerate() {
+        let mut s = [[true; 5]; 2];
+        for ei in 0..2 {
+            for _ in &a.segs {
+                for g in 0..5 {
+                    if ans2[k2] != "1" {
+                        s[ei][g] = false;
+                    }
+                    k2 += 1;
+                }
+            }
+            if !wf[pi][ei] {
+                s[ei] = [false; 5];
+            }
+        }
+        safe.push(s);
+    }
+    // jobs: every granularity x grouping x reordering per program, the other options rotating
+    let mut jobs: Vec<Job> = vec![];
+    let mut meta: Vec<(usize, HCfg)> = vec![];
+    for (pi, (p, src, _)) in progs.iter().enumerate() {
+        for g in 0..5 {
+            for gi in 0..3 {
+                for r in [false, true] {
+                    let c = HCfg { granularity: g, group: gi, reorder: r, edition: *rng.pick(&EDITIONS), style: *rng.pick(&EDITIONS), width: *rng.pick(&[100, 100, 70, 40, 24]) };
+                    if p.has_pre && gi == 0 {
+                        o.count("e2e:skipped (comment line between declarations under group_imports=Preserve: probe C10-cmt-first)");
+                        continue;
+                    }
+                    if !safe[pi][if c.e2018() { 1 } else { 0 }][g] {
+                        o.count(&format!("e2e:skipped (hypothesis of run_leaves_partial false for {})", GNAMES[g]));
+                        continue;
+                    }
+                    o.count(&format!("e2e:runs granularity={}", GNAMES[g]));
+                    o.count(&format!("e2e:runs group_imports={}", GROUPS[gi]));
+                    o.count(&format!("e2e:runs reorder_imports={}", r));
+                    o.count(&format!("e2e:runs edition={}", c.edition));
+                    o.count(&format!("e2e:runs style_edition={}", c.style));
+                    o.count(&format!("e2e:runs max_width={}", c.width));
+                    jobs.push(Job { src: src.clone(), cfg: c.pairs(), file_lines: None });
+                    meta.push((pi, c));
+                }
+            }
+        }
+    }
+    o.count_n("e2e:formatter-runs", jobs.len() as u64);
+    let res = pool::run_jobs(&jobs, crate::util::jobs(), Duration::from_secs(20));
+    judge(o, &progs.iter().map(|(_, s, a)| (s.clone(), a)).collect::<Vec<_>>(), &meta, &res, "e2e");
+}
+
+/// Leaf sets of input and output, per segment and per commented declaration, by the Lean denotation.
+fn judge(o: &mut Outcome, progs: &[(String, &Analysed)], meta: &[(usize, HCfg)], res: &[pool::FmtOut], fam: &str) -> Vec<bool> {
+    let mut verdicts = vec![true; meta.len()];
+    // 1. what the inputs denote
+    let mut reqs: Vec<String> = vec![];
+    let mut pending: Vec<(usize, Analysed)> = vec![];
+    for (k, ((pi, c), r)) in meta.iter().zip(res.iter()).enumerate() {
+        let (src, a) = &progs[*pi];
+        let fail = |o: &mut Outcome, sig: &str, what: String, out: &str| {
+            o.direct_failures.push(json!({"sig": sig, "what": what, "src": src, "cfg": c.text(), "out": out}));
+        };
+        match &r.status {
+            Status::Ok => {}
+            Status::Timeout | Status::Infra(_) => {
+                o.count(&format!("{}:inconclusive (timeout or harness)", fam));
+                continue;
+            }
+            s => {
+                // a crash or an error is C16's subject, not a lost import
+                o.count(&format!("{}:not formatted ({})", fam, format!("{:?}", s).split('(').next().unwrap_or("?")));
+                continue;
+            }
+        }
+        if r.flags[1] {
+            o.count(&format!("{}:not formatted (parse error reported)", fam));
+            continue;
+        }
+        o.direct_evals += 2;
+        let out = match analyse(&r.out) {
+            Ok(x) => x,
+            Err(e) => {
+                verdicts[k] = false;
+                fail(o, "c10:output-not-parsed", format!("the harness parser rejects the output: {}", e), &r.out);
+                continue;
+            }
+        };
+        if out.others != a.others {
+            verdicts[k] = false;
+            fail(o, "c10:barrier-changed", "the items that are not reorderable imports changed (text or number): an import crossed one, or one was rewritten".into(), &r.out);
+            continue;
+        }
+        let e2015 = !c.e2018();
+        for sgm in a.segs.iter().chain(out.segs.iter()) {
+            reqs.push(format!("imp.leaves {}", litems(&sgm.iter().map(|u| item_of_puse(u, e2015)).collect::<Vec<_>>())));
+        }
+        for u in a.segs.iter().flatten().filter(|u| !u.comments.is_empty()) {
+            reqs.push(format!("imp.leaves {}", litem(&item_of_puse(u, e2015))));
+        }
+        pending.push((k, out));
+    }
+    let ans = run_model(&reqs, crate::util::jobs());
+    let mut q = 0;
+    for (k, out) in pending {
+        let (pi, c) = &meta[k];
+        let (src, a) = &progs[*pi];
+        let e2015 = !c.e2018();
+        let n = a.segs.len();
+        let desc = format!("[{}] {} => {}", c.text(), enc_str(src), enc_str(&res[k].out));
+        for s in 0..n {
+            let (lin, lout) = (&ans[q + s], &ans[q + n + s]);
+            if a.segs[s].is_empty() && out.segs[s].is_empty() {
+                continue;
+            }
+            if lin != lout {
+                verdicts[k] = false;
+            }
+            o.count(&format!("{}:segment leaves={}", fam, if lin == "_" { 0 } else { lin.matches('|').count() + 1 }.min(12)));
+            // the model computes the denotation of the output; the passing answer is the denotation of the input
+            o.push("oracle", "imp.leaves", reqs[q + n + s].clone(), lin.clone(), format!("segment {} {}", s, desc), a.segs[s].len() >= 2);
+        }
+        q += 2 * n;
+        for u in a.segs.iter().flatten().filter(|u| !u.comments.is_empty()) {
+            let lin = &ans[q];
+            q += 1;
+            for tag in tags(u) {
+                let holders: Vec<&PUse> = out.segs.iter().flatten().filter(|x| tags(x).contains(&tag)).collect();
+                if holders.len() != 1 {
+                    // lost or floating comments are C03's subject
+                    o.count(&format!("{}:comment not attached to a declaration in the output", fam));
+                    if std::env::var("C10_DEBUG").is_ok() {
+                        eprintln!("TAG {} holders {} [{}]\n{}=>\n{}", tag, holders.len(), c.text(), src, res[k].out);
+                    }
+                    continue;
+                }
+                o.count(&format!("{}:commented declarations followed", fam));
+                o.push("oracle", "imp.leaves", format!("imp.leaves {}", litem(&item_of_puse(holders[0], e2015))), lin.clone(), format!("the declaration that carries comment `{}` {}", tag, desc), true);
+            }
+        }
+    }
+    verdicts
+}
+
 pub fn run(tier: &str, seed: u64, out: &Path) -> i32 {
     pool::install_panic_hook();
     let mut o = Outcome::new("C10", tier, seed);
@@ -1392,12 +1764,15 @@ pub fn run(tier: &str, seed: u64, out: &Path) -> i32 {
     let mut rng = Rng::new(seed ^ 0xc10);
     let only = std::env::var("C10_ONLY").unwrap_or_default();
     let on = |p: &str| only.is_empty() || only.split(',').any(|x| x == p);
+    let (mut r1, mut r2, mut r3) = (rng.fork(), rng.fork(), rng.fork());
     if on("trees") {
-        part_trees(&mut o, &mut rng.fork(), thorough);
+        part_trees(&mut o, &mut r1, thorough);
     }
     if on("source") {
-        part_source(&mut o, &mut rng.fork(), thorough);
+        part_source(&mut o, &mut r2, thorough);
     }
-    let _ = (Duration::from_secs(1), Status::Ok, Job { src: String::new(), cfg: vec![], file_lines: None });
+    if on("e2e") {
+        part_e2e(&mut o, &mut r3, thorough);
+    }
     o.finish(out, crate::util::jobs())
 }
